@@ -130,6 +130,90 @@ example : runSys { thr := 100, maxCount := 2, maxSize := 10000 } false {}
     [.put 1 10, .put 2 20, .put 3 30, .put 4 500, .pass [true, false], .finish 0 false, .pass [], .finish 0 true,
      .finish 0 true, .pass [], .pass []] = { cache := [(4, 500)], inflight := [4], jobs := [] } := by decide
 
+/-! ## the batch a worker was given versus what the scheduler's address array holds now (`BSys`)
+
+A worker reads its batch — a window of the pass's sorted-address array — a second time when it is done, to unmark the
+addresses; in between the scheduler may have run any number of passes over other objects (the worker sits in its
+main-storage put). The theorems below are over ALL histories of puts, passes (any worker/error answers) and job ends in
+any order and at any distance from their hand-over. -/
+
+/-- **No pass ever changes a batch that a worker still holds**: in every reachable state the window of every running job
+holds exactly the addresses the job was given (the code allocates the array of each pass; arrays of earlier passes
+are never written again). -/
+theorem batches_never_overwritten (cfg : Cfg) (ops : List Op) :
+    ∀ j ∈ (runB cfg false {} ops).jobs, window (runB cfg false {} ops).bufs j = j.given :=
+  fun j hj => ((runB_fresh cfg ops {} views_init).1 j hj).2
+
+/-- **Every address handed to a worker is unmarked when that worker is done** — whenever that is (any number of passes
+later), with whatever outcome. -/
+theorem worker_unmarks_its_batch (cfg : Cfg) (ops : List Op) (i : Nat) (ok : Bool) (j : Job)
+    (hj : (runB cfg false {} ops).jobs[i]? = some j) :
+    ∀ a ∈ j.given, a ∉ (stepB cfg false (runB cfg false {} ops) (.finish i ok)).inflight := by
+  intro a ha
+  have hw := batches_never_overwritten cfg ops j (List.mem_of_getElem? hj)
+  simp only [stepB, hj, hw, mem_removeAll]
+  exact fun h => h.2 ha
+
+/-- the array-level system is the marker bookkeeping of `Sys` (all theorems above carry over) -/
+theorem buffers_refine (cfg : Cfg) (ops : List Op) : toSys (runB cfg false {} ops) = runSys cfg true {} ops :=
+  (runB_fresh cfg ops {} views_init).2
+
+/-- every marker is owned by a running job that was GIVEN the address (and will therefore clear it) -/
+theorem markers_always_owned_buffers (cfg : Cfg) (ops : List Op) :
+    ∀ a ∈ (runB cfg false {} ops).inflight, ∃ j ∈ (runB cfg false {} ops).jobs, a ∈ j.given := by
+  intro a ha
+  have h := markers_always_owned cfg ops
+  rw [← buffers_refine] at h
+  obtain ⟨g, hg, hag⟩ := h a ha
+  simp only [toSys, List.mem_map] at hg
+  obtain ⟨j, hj, rfl⟩ := hg
+  exact ⟨j, hj, hag⟩
+
+/-- **Everything is eventually flushed, however long workers held their batches**: from the state after ANY history
+(jobs still running, handed over any number of passes ago) the fair continuation — running jobs end, one pass whose
+batches are taken, those jobs end, storage accepting — leaves the cache empty with no marker and no job. -/
+theorem eventually_flushed_buffers (cfg : Cfg) (ops : List Op) :
+    let s := runB cfg false {} ops
+    let s1 := runB cfg false s (drain (toSys s))
+    let s2 := stepB cfg false s1 (.pass [])
+    let s3 := runB cfg false s2 (drain (toSys s2))
+    s3.cache = [] ∧ s3.inflight = [] ∧ s3.jobs = [] := by
+  intro s s1 s2 s3
+  have h0 := runB_fresh cfg ops {} views_init
+  have hn : NoLeak (toSys s) := by
+    show NoLeak (toSys (runB cfg false {} ops))
+    rw [buffers_refine]; exact markers_always_owned cfg ops
+  have h1 := runB_fresh cfg (drain (toSys s)) s h0.1
+  have h2 := stepB_fresh cfg s1 (.pass []) h1.1
+  have h3 := runB_fresh cfg (drain (toSys s2)) s2 h2.1
+  have e := eventually_flushed cfg (toSys s) hn
+  simp only [] at e
+  have e1 : toSys s1 = runSys cfg true (toSys s) (drain (toSys s)) := h1.2
+  have e2 : toSys s2 = stepSys cfg true (toSys s1) (.pass []) := h2.2
+  have e3 : toSys s3 = runSys cfg true (toSys s2) (drain (toSys s2)) := h3.2
+  rw [← e1, ← e2, ← e3] at e
+  refine ⟨e.1, e.2.1, ?_⟩
+  have : s3.jobs.map (·.given) = [] := e.2.2
+  exact List.map_eq_nil_iff.mp this
+
+/-- **An address array kept between the passes breaks it** (`sortedAddrs = sortedAddrs[:0]`): object 1 is handed to a
+worker that stalls in its main-storage put; object 2 arrives, the next pass writes it over the array's front and a
+second worker flushes it; the stalled put of 1 fails — the worker unmarks what its window holds NOW (2), object 1 stays
+marked with no job, every later pass skips it: it never leaves the cache. With an array per pass the same history
+ends with an empty cache. -/
+theorem buffer_reuse_leaks :
+    runB { thr := 100, maxCount := 128, maxSize := 10000 } true {}
+      [.put 1 10, .pass [], .put 2 20, .pass [], .finish 1 true, .finish 0 false, .pass [], .pass []]
+      = { cache := [(1, 10)], inflight := [1], bufs := [[2]], jobs := [] } ∧
+    runB { thr := 100, maxCount := 128, maxSize := 10000 } false {}
+      [.put 1 10, .pass [], .put 2 20, .pass [], .finish 1 true, .finish 0 false, .pass [], .finish 0 true]
+      = { cache := [], inflight := [], bufs := [[1], [2], [1]], jobs := [] } := by decide
+
+/-- non-vacuity: a state with a job that has been running over two later passes, its window intact -/
+example : (runB { thr := 100, maxCount := 2, maxSize := 10000 } false {}
+    [.put 1 10, .put 2 20, .put 3 30, .pass [], .finish 0 true, .put 4 15, .put 5 500, .pass [], .finish 1 true, .finish 1 true,
+     .put 6 5, .pass [], .finish 1 true]).jobs = [{ given := [3], buf := 0, lo := 2 }] := by decide
+
 end NeoFS.WCSched
 
 namespace NeoFS.WCFlush
